@@ -872,7 +872,11 @@ func dirFlagLeak(r *core.Rand) []grule {
 	return rs
 }
 
-func genList(ctx *core.Ctx, r *core.Rand) listCase {
+func genList(ctx *core.Ctx, r *core.Rand) listCase { return genListShaped(ctx.Count, r, 7, 6) }
+
+// genListShaped: foldPct / leakPct = how many lists in a hundred are built around a fold pair / a flag
+// group in front of another rule (the shapes of F26 / F10).
+func genListShaped(count func(string), r *core.Rand, foldPct, leakPct int) listCase {
 	g := &gen{r: r, feats: map[string]bool{}}
 	var rs []grule
 	n := r.Range(1, 6)
@@ -880,16 +884,16 @@ func genList(ctx *core.Ctx, r *core.Rand) listCase {
 		n = 2
 	}
 	switch k := r.Intn(100); {
-	case k < 7:
+	case k < foldPct:
 		rs = dirFoldPair(r)
 		n = r.Intn(3)
-		ctx.Count("list/generator/directed-fold-pair")
-	case k < 13:
+		count("list/generator/directed-fold-pair")
+	case k < foldPct+leakPct:
 		rs = dirFlagLeak(r)
 		n = r.Intn(3)
-		ctx.Count("list/generator/directed-flag-group")
+		count("list/generator/directed-flag-group")
 	default:
-		ctx.Count("list/generator/grammar")
+		count("list/generator/grammar")
 	}
 	for i := 0; i < n; i++ {
 		p, ex := genValidRule(g)
@@ -997,7 +1001,7 @@ func genList(ctx *core.Ctx, r *core.Rand) listCase {
 		lc.Perm = perm
 	}
 	for f := range g.feats {
-		ctx.Count("rule-feature/" + f)
+		count("rule-feature/" + f)
 	}
 	return lc
 }
